@@ -2022,3 +2022,63 @@ pub fn c07_hyrax(ctx: &mut Ctx, n: usize) {
         ctx.rep.case(&format!("hyrax hiding open k={} nv={:?} rng-bytes={}", k, sizes.num_vars, ro.bytes), Some(format!("hyrax-open/{:?}/{}", sizes.num_vars, k)));
     }
 }
+
+/// C09: parameters that went through serialization are "the same parameters": keys trimmed from the
+/// re-loaded copy equal the original keys byte for byte and interoperate with them in both directions
+/// (original prover ↔ re-loaded verifier key, re-loaded prover key ↔ original verifier), on a batch
+/// over two point labels.
+pub fn c09_reloaded<S: Scheme>(ctx: &mut Ctx, n: usize)
+where
+    Pt<S>: Clone + Ord + std::fmt::Debug,
+    Comm<S>: Clone,
+{
+    use ark_serialize::{CanonicalDeserialize, CanonicalSerialize};
+    for i in 0..n {
+        let id = format!("C09/{}-reloaded/{}", S::NAME, i);
+        if !ctx.selected(&id) { continue; }
+        let mut rng = rng_for(ctx.seed, &format!("C09/{}-reloaded", S::NAME), i as u64);
+        let inst: Instance<S> = match guarded(|| instance::<S>(&mut rng, ctx.thorough, 2 + i % 2)) { Ok(Ok(x)) => x, _ => continue };
+        let mut bytes = vec![];
+        if inst.pp.serialize_compressed(&mut bytes).is_err() { continue; }
+        let pp2 = match PP::<S>::deserialize_compressed(&bytes[..]) { Ok(p) => p, Err(_) => {
+            ctx.rep.expect_fail(&id, &format!("{}/params-do-not-reload", S::NAME), "serialized universal parameters do not deserialize", fail_replay(&inst, &id, ctx.seed, "reload"));
+            continue; } };
+        let (ck2, vk2) = match guarded(|| S::PC::trim(&pp2, inst.sizes.supported, inst.sizes.supported, inst.bounds.as_deref())) {
+            Ok(Ok(x)) => x,
+            _ => { ctx.rep.expect_fail(&id, &format!("{}/reloaded-params-trim-refused", S::NAME), "trim of re-loaded parameters refused", fail_replay(&inst, &id, ctx.seed, "reload")); continue; }
+        };
+        let same = ser(&ck2) == ser(&inst.ck) && ser(&vk2) == ser(&inst.vk);
+        let (qs, ev) = query_set::<S>(&mut rng, &inst, 2, true);
+        let mut ev_bad = ev.clone();
+        if let Some(k) = ev.keys().next().cloned() { *ev_bad.get_mut(&k).unwrap() += rand_nonzero(&mut rng); }
+        let inst2 = Instance::<S> { sizes: inst.sizes.clone(), pp: inst.pp.clone(), ck: ck2, vk: vk2, polys: inst.polys.clone(), kinds: inst.kinds.clone(),
+            comms: inst.comms.clone(), states: inst.states.clone(), bounds: inst.bounds.clone() };
+        let mut outcomes = vec![];
+        for (pname, prover) in [("original", &inst), ("reloaded", &inst2)] {
+            let mut psp = fresh_sponge();
+            let proof = match batch_open::<S>(prover, &qs, &mut psp, &mut rng.clone()) { Ok(p) => p, Err(e) => { outcomes.push(format!("{} prover refused: {}", pname, e)); continue; } };
+            for (vname, verifier) in [("original", &inst), ("reloaded", &inst2)] {
+                let good = batch_check::<S>(verifier, &inst.comms, &qs, &ev, &proof, &mut fresh_sponge(), &mut rng.clone());
+                let bad = batch_check::<S>(verifier, &inst.comms, &qs, &ev_bad, &proof, &mut fresh_sponge(), &mut rng.clone());
+                if !good.accepted() || bad.accepted() {
+                    outcomes.push(format!("{} prover key / {} verifier key: honest {:?}, tampered {:?}", pname, vname, good, bad));
+                }
+            }
+        }
+        if !same || !outcomes.is_empty() {
+            ctx.rep.expect_fail(&id, &format!("{}/reloaded-params-do-not-interoperate", S::NAME),
+                &format!("keys from re-loaded parameters: same bytes {}; {}", same, outcomes.join("; ")),
+                fail_replay(&inst, &id, ctx.seed, "universal parameters serialized and re-loaded before trim"));
+        }
+        ctx.rep.case(&format!("{} reloaded params interoperate", inst.desc()), Some(format!("{}/reloaded/{}", S::NAME, i)));
+    }
+}
+
+pub fn c09_reloaded_all(ctx: &mut Ctx) {
+    let n = ctx.n(3, 20);
+    c09_reloaded::<Marlin>(ctx, n);
+    c09_reloaded::<Sonic>(ctx, n);
+    c09_reloaded::<Ipa>(ctx, n);
+    c09_reloaded::<Pst13>(ctx, n);
+    c09_reloaded::<Hyrax>(ctx, n);
+}
